@@ -102,6 +102,12 @@ def form_a(draw):
         "aseed": draw(st.integers(0, 99)),
         "optimize": draw(st.sampled_from(["auto", "greedy"])),
         "via": draw(st.sampled_from(["einsum", "einsum", "einsum_expression", "einsum_tree"])),
+        # operands of different dtype (numpy brings them to the common type
+        # first): None = all float64
+        "dtypes": (
+            [draw(st.sampled_from(["f8", "f8", "bool", "u1", "i1", "f4", "c16", "i8"])) for _ in range(nops)]
+            if draw(st.integers(0, 5)) == 0 else None
+        ),
     }
 
 
@@ -263,6 +269,17 @@ def _cmp(got, exp, what):
     return []
 
 
+def known_mixed_dtypes(spec, v):
+    """Open finding: operands of different dtype are not brought to the common
+    type first, so a pairwise / single-operand step computed in the narrow
+    type (bool: logical or; uint8, int8: wrap around) differs from numpy."""
+    dts = spec.get("dtypes")
+    return bool(dts) and len(set(dts)) > 1 and "values differ from reference" in v
+
+
+KNOWN = {"mixed_dtype_operands": known_mixed_dtypes}
+
+
 def run_case(spec, sub=None):
     import cotengra as ctg
 
@@ -272,6 +289,20 @@ def run_case(spec, sub=None):
     kw = {"cache_expression": False}
     if form == "A":
         arrays = _arrays(spec["shapes"], spec["aseed"])
+        if spec.get("dtypes"):
+            cast = []
+            for a_, dt in zip(arrays, spec["dtypes"]):
+                if dt == "bool":
+                    cast.append(np.abs(a_) % 2 == 1)
+                elif dt == "u1":
+                    cast.append(np.abs(a_).astype(np.uint8) + 120)  # sums of a few of them pass 255
+                elif dt == "i1":
+                    cast.append((a_ * 50).astype(np.int8))
+                else:
+                    cast.append(a_.astype(dt))
+            arrays = cast
+            if len(set(spec["dtypes"])) > 1:
+                cls.append("mixed_dtypes")
         eq = spec["eq"]
         try:
             exp = np.einsum(eq, *arrays)
